@@ -57,9 +57,22 @@ def _key(x):
     return core.sym_value(x) if core.is_sym(x) else x
 
 
-@ob("C20", params=[dict(n=1, shape=None), dict(n=2, shape=None), dict(n=3, shape=None), dict(n=2, shape=(2, 3)), dict(n=2, shape=(1, 1)),
-                   dict(n=2, shape=(3, 2, 4)), dict(n=3, shape=(2, 2)), dict(n=2, shape=(2, 3, 2), _tier="thorough"), dict(n=3, shape=(4, 3, 5), _tier="thorough")],
-    bounds="tendiag / sptendiag: symbolic elements; default, cubical, non-cubical, too small and larger shapes")
+def _diag_params():
+    import itertools
+    out = [dict(n=1, shape=None), dict(n=2, shape=None), dict(n=3, shape=None), dict(n=2, shape=(2, 3)), dict(n=2, shape=(1, 1)),
+           dict(n=2, shape=(3, 2, 4)), dict(n=3, shape=(2, 2)), dict(n=2, shape=(2, 3, 2)), dict(n=3, shape=(4, 3, 5))]
+    seen = {(d["n"], d["shape"]) for d in out}
+    # every mix of modes that are too small / exact / larger than the number of elements (each mode is enlarged on its own)
+    for n, k in ((2, 2), (3, 2), (2, 3), (3, 3)):
+        for shape in itertools.product((n - 1, n, n + 2), repeat=k):
+            if (n, shape) not in seen:
+                seen.add((n, shape))
+                out.append(dict(n=n, shape=shape))
+    return out
+
+
+@ob("C20", params=_diag_params(),
+    bounds="tendiag / sptendiag: symbolic elements; default shape; every 2-way and 3-way shape whose modes are, independently, smaller than / equal to / larger than the number of elements (n = 2, 3)")
 def diagonal(E, n, shape):
     """tendiag / sptendiag: the given values on the super-diagonal, zero elsewhere, shape enlarged to fit"""
     el = E.reals("d", (n,))
